@@ -25,6 +25,9 @@ type SIOpts struct {
 	CorruptSignature bool
 	// SigningTime defaults to now.
 	SigningTime time.Time
+	// NoSigningTime omits the signing-time signed attribute altogether (it is
+	// optional in RFC 5652).
+	NoSigningTime bool
 }
 
 func hashFor(pub crypto.PublicKey) (crypto.Hash, asn1.ObjectIdentifier) {
@@ -69,6 +72,9 @@ func SignerInfo(content []byte, cert *x509.Certificate, key crypto.Signer, o SIO
 	ctAttr, err := protocol.NewAttribute(oid.AttributeContentType, oid.ContentTypeData)
 	must(err)
 	attrs := protocol.Attributes{stAttr, mdAttr, ctAttr}
+	if o.NoSigningTime {
+		attrs = protocol.Attributes{mdAttr, ctAttr}
+	}
 	sort.Slice(attrs, func(i, j int) bool {
 		return bytes.Compare(attrs[i].RawValue.FullBytes, attrs[j].RawValue.FullBytes) < 0
 	})
